@@ -113,6 +113,9 @@ def run_shard(spec, M):
             run_dialect(d, spec["L"], M)
 
 
+SHARED = {}
+
+
 def run_dialect(d, L, M):
     spec = dialects.master()[d]
     cats = {"Context": "given", "Action": "when", "Outcome": "then", "Conjunction": "and", "Conjunction2": "but"}
@@ -130,7 +133,15 @@ def run_dialect(d, L, M):
             kws["Unknown"] = k
             break
     types = list(kws)
-    hdr = [] if d == "en" else ["# language: " + d]
+    hdr = ["# language: " + d]      # also for the default dialect: a redundant header must change nothing
+    from gherkin.parser import Parser as _P
+    from gherkin.token_matcher import TokenMatcher as _TM
+    if "pm" not in SHARED:
+        from gherkin.ast_builder import AstBuilder as _AB
+        from gherkin.stream.id_generator import IdGenerator as _IG
+        _g = _IG()
+        SHARED["pm"] = (_P(_AB(_g)), _TM("en"), _g)
+    shared = SHARED["pm"]
     f = spec["feature"][0]
     bgk = spec["background"][0]
     sck = spec["scenarioOutline"][0]
@@ -145,8 +156,15 @@ def run_dialect(d, L, M):
                     lines += ["  " + sck + ": s"] + ["    " + kws[t] + "s" for t in seq[nbg:]]
                     if outline:
                         lines += ["    " + exk + ":", "      | h |", "      | v |", "      | w |", "    " + exk + ":", "      | h |", "      | x |"]
+                    if d == "en" and (n + nbg) % 2:
+                        lines = lines[1:]            # en: with and without the redundant header
                     text = "\n".join(lines) + "\n"
-                    o = observe.parse_observed(text)
+                    # every third document goes through one matcher/parser reused for the whole dialect sweep
+                    if len(seq) % 3 == 0:
+                        o = observe.parse_observed(text, parser=shared[0], matcher=shared[1], idgen=shared[2])
+                        M.count("documents_parsed_on_reused_matcher")
+                    else:
+                        o = observe.parse_observed(text)
                     M.case(h64(text))
                     if o.status != "ok":
                         M.violation("C10.rejected", {"what": "keyword-sequence document rejected", "errors": o.err_messages()[:2]}, {"kind": "text", "text": text})
